@@ -58,6 +58,16 @@ def authLines : List Ev → List Bytes
   | .send l :: t => if (b!"AUTH ").isPrefixOf l then l :: authLines t else authLines t
   | _ :: t => authLines t
 
+/-- `l` offers mechanism `m`: `AUTH <m>` or `AUTH <m> <initial response>`. -/
+def IsOfferOf (l m : Bytes) : Prop :=
+  l = b!"AUTH " ++ m ∨ ∃ resp, l = b!"AUTH " ++ m ++ b!" " ++ resp
+
+/-- The lines offer exactly these mechanisms, one line each, in this order. -/
+inductive OfferedInOrder : List Bytes → List Bytes → Prop
+  | nil : OfferedInOrder [] []
+  | cons {l m : Bytes} {ls ms : List Bytes} : IsOfferOf l m → OfferedInOrder ls ms →
+      OfferedInOrder (l :: ls) (m :: ms)
+
 /-- The command words a server may send during the handshake. -/
 def serverWords : List Bytes :=
   [b!"REJECTED", b!"OK", b!"DATA", b!"ERROR", b!"AGREE_UNIX_FD"]
